@@ -15,7 +15,7 @@ import vlib, lang, factlib
 from vlib import tlc, expect_holds, ToolError
 
 LEVEL = "model_checking"
-TIERS = {"quick": dict(queries=400, fresh=25, evals=3), "thorough": dict(queries=6000, fresh=200, evals=4)}
+TIERS = {"quick": dict(queries=1500, fresh=60, evals=3), "thorough": dict(queries=6000, fresh=200, evals=4)}
 MINE = {"answer-differs", "descriptions-when-off", "descriptions-missing", "wrong-constant", "descriptions-differ", "panic"}
 
 
